@@ -124,7 +124,7 @@ impl Rig {
     }
 
     fn frames_out(&mut self, from_other_clone: bool) -> Vec<String> {
-        let raws = self.bus.drain(3);
+        let raws = self.bus.sync();
         // the bus runs without same-process loopback (GLONAX_VERIF_BUS_LOOPBACK=0): the receive clone does not
         // hear the tick / command clones, so nothing loops back
         let _ = from_other_clone;
